@@ -30,7 +30,11 @@ func (s *State) evalUnquoteCalls(quoted ast.Node) ast.Node {
 			return node
 		}
 		unquoted := s.evalInternal(call.Parameters[0])
-		return convertObjectToASTNode(unquoted)
+		res := convertObjectToASTNode(unquoted)
+		if res == nil { // would make a quote with a nil node which crashes when printed or evaluated.
+			return s.MacroErrorf("unquote: unsupported %s", unquoted.Type())
+		}
+		return res
 	})
 }
 
